@@ -285,6 +285,12 @@ def arithmetic(ctx, name, op, rng, x):
     if elem_ran:
         get('Io', lambda: odl.IdentityOperator(ran) * op)
         get('+op+v', lambda: (op + op) + util.rand_element(ran, rng))
+    if dom == ran and not util.is_field(dom):
+        # powers chain compositions (their temporaries are handed from one to the next) and op o op feeds op its own output
+        get('**2', lambda: op ** 2)
+        get('**3', lambda: op ** 3)
+        get('**4', lambda: op ** 4)
+        get('op.op.op', lambda: op * op * op)
     return out
 
 
@@ -431,7 +437,7 @@ def run_ambient(ctx):
 
 def run(ctx):
     ctx.note('rule', 'one case = one operator / functional instance (registry recipe, or operator manufactured from it: adjoint, '
-                     'inverse, derivative(x), gradient, proximal, convex_conj.proximal, or one of 14 arithmetic wrappers around it) driven through '
+                     'inverse, derivative(x), gradient, proximal, convex_conj.proximal, or one of 18 arithmetic wrappers around it) driven through '
                      'the call protocol; '
                      'distinct = distinct (recipe name + manufactured tag); every Operator.__call__ made during the run is '
                      'additionally checked by the contract wrapper')
